@@ -316,6 +316,50 @@ func c13Payload(c *ctx, sc schemaSpec, payload string, how string, prop string) 
 			}
 		}
 	}
+	// ---------- what was returned is the caller's, the schema stays the schema's ----------
+	if key == "" && (fullOK || partOK) {
+		if p, pv := guard(func() {
+			snap := func() string {
+				var it []string
+				for _, t := range schema.Types {
+					it = append(it, oType(t))
+				}
+				return strings.Join(it, " ")
+			}
+			before := snap()
+			if partOK {
+				first := oPartial(part)
+				for n := range part.Attrs() {
+					part.RemoveField(n)
+				}
+				for n := range part.Rels() {
+					part.RemoveField(n)
+				}
+				part.AddAttr(jsonapi.Attr{Name: "added-to-the-result", Type: jsonapi.AttrTypeInt})
+				if snap() != before {
+					key, detail = "result-shares-schema", "editing the fields of a partial resource changed the schema"
+				} else if again, err := jsonapi.UnmarshalPartialResource([]byte(payload), schema); err != nil || oPartial(again) != first {
+					key, detail = "result-shares-schema", fmt.Sprintf("after the fields of one partial result were edited the same payload gives another result (%v)", err)
+				}
+			}
+			if fullOK && key == "" {
+				fields := append([]string{"id"}, typeFieldNames(full.GetType())...)
+				first := oResource(full, fields)
+				// the schema is edited afterwards: other types leave, the resource's own type is replaced
+				for len(schema.Types) > 0 && schema.Types[0].Name != full.GetType().Name {
+					schema.RemoveType(schema.Types[0].Name)
+				}
+				name := full.GetType().Name
+				schema.RemoveType(name)
+				_ = schema.AddType(jsonapi.Type{Name: name})
+				if now := oResource(full, fields); now != first {
+					key, detail = "result-follows-schema-edit", fmt.Sprintf("a resource returned earlier reads differently after the schema was edited: %s, was %s", now, first)
+				}
+			}
+		}); p && key == "" {
+			key, detail = "result-shares-schema", fmt.Sprint(pv)
+		}
+	}
 	outcome := fmt.Sprintf("full=%v partial=%v", fullOK, partOK)
 	c.count("outcome:" + outcome)
 	c.count("how:" + how)
@@ -467,7 +511,9 @@ func runPayloads(c *ctx, prop string) {
 			{rel: true, name: "owner", toOne: true, target: "other"}, {rel: true, name: "reviewer", toOne: true, target: "other"},
 			{rel: true, name: "tags", target: "other"}, {rel: true, name: "cats", target: "other"}, {rel: true, name: "refs", target: "other"},
 			// a relationship that is its own inverse
-			{rel: true, name: "friends", target: "links4", inv: "friends"}}}
+			{rel: true, name: "friends", target: "links4", inv: "friends"},
+			// a relationship to a type the schema does not (yet) hold
+			{rel: true, name: "ghost", toOne: true, target: "absent"}}}
 		ident := func(id string) *jnode { return jObj().set("id", jString(id)).set("type", jString("other")) }
 		for _, wrapped := range []bool{false, true} {
 			sc := schemaSpec{types: []typeSpec{links, {name: "other"}}, wrapped: map[string]bool{"links4": wrapped}}
@@ -490,6 +536,9 @@ func runPayloads(c *ctx, prop string) {
 						// identifiers that do not say their id
 						rels.set(rn, jObj().set("data", jArr(jObj().set("type", jString("other")))))
 					}
+				}
+				if mask&2 != 0 {
+					rels.set("ghost", jObj().set("data", jObj().set("id", jString("g1")).set("type", jString("absent"))))
 				}
 				if mask&1 != 0 {
 					rels.set("friends", jObj().set("data", jArr(jObj().set("id", jString("f1")).set("type", jString("links4")))))
